@@ -69,6 +69,13 @@ func TdxPolicy(ctx context.Context, endorsement *epb.VMLaunchEndorsement, opts *
 		}
 		mrtds = append(mrtds, m.GetMrtd())
 	}
+	// An empty allow-list would make go-tdx-guest skip the MRTD check altogether.
+	if len(mrtds) == 0 {
+		if opts.RAMGiB != 0 {
+			return nil, fmt.Errorf("golden measurement does not contain a tdx measurement for %d GiB of RAM", opts.RAMGiB)
+		}
+		return nil, fmt.Errorf("golden measurement does not contain tdx measurements")
+	}
 	if err := modifyTdxPolicy(result, mrtds, opts); err != nil {
 		return nil, err
 	}
